@@ -1,6 +1,7 @@
 """Online invariants evaluated at the seams (at call time: operators, mu_boundary,
 link_exponents and the running-state buffer are mutated in place by the library)."""
 import numpy as np
+from .common import aeq  # noqa: E402
 
 from . import build as B
 from . import refphys as R
@@ -162,7 +163,7 @@ class C02Update:
         mask = np.ones(len(out), dtype=bool)
         if c.terminal_psi is not None and len(c.pinned):
             mask[c.pinned] = False
-        if not np.array_equal(out[mask], last["psi"][mask], equal_nan=True):
+        if not aeq(out[mask], last["psi"][mask]):
             V.append(Violation("step-psi-mismatch", f"step {cur['step']}: the psi returned by the step is not the psi' of its accepted update (max |diff| {float(np.max(np.abs(out[mask] - last['psi'][mask]))):.3g})", **where))
         return V
 
@@ -374,7 +375,7 @@ class C10Refresh:
             b.sort_indices()
             da = a - b
             err = float(np.max(np.abs(da.data), initial=0.0))
-            same_pattern = (a.indptr.shape == b.indptr.shape and np.array_equal(a.indptr, b.indptr) and np.array_equal(a.indices, b.indices))
+            same_pattern = (a.indptr.shape == b.indptr.shape and aeq(a.indptr, b.indptr) and aeq(a.indices, b.indices))
             if err != 0.0 or not same_pattern:
                 V.append(
                     Violation(
